@@ -690,6 +690,86 @@ def free_names(t):
 
 
 # =============================================================================== main
+def sec_iteration_wiring(ck):
+    """the training step of the real iteration() is fed the lagged TARGET networks held in the algorithm state (not the online ones):
+    traced over real tiny MLPs with symbolic parameters; decided as data-flow facts on the symbolic outputs plus a replay on the real API"""
+    import equinox as eqx
+    from jax import random as jr
+    from jaxsmt import stubs
+    from jaxsmt.harness import UFEnv
+    from jaxsmt.uf import GenericWorld, world
+    from lerax.algorithm import DQN, SAC
+    from lerax.policy import MLPQPolicy, MLPSACPolicy
+    from lerax.space import Box, Discrete
+    from lerax.wrapper import TimeLimit
+    from props.C10 import iteration_trace, leaves_equal
+    from props.common import empty_callback
+    cb = empty_callback()
+
+    def symbols_in(terms):
+        seen, names = set(), set()
+        stack = [t for t in terms if isinstance(t, z3.ExprRef)]
+        while stack:
+            t = stack.pop()
+            if t.get_id() in seen:
+                continue
+            seen.add(t.get_id())
+            if z3.is_const(t) and t.decl().kind() == z3.Z3_OP_UNINTERPRETED:
+                names.add(t.decl().name())
+            stack.extend(t.children())
+        return names
+
+    def real_dependence(algo, env, pol, attr_targets, attr_online):
+        """run the real iteration twice from states that differ ONLY in the target networks: the updated online networks must differ"""
+        outs = []
+        for scale in (1.0, 3.0):
+            jax.clear_caches()
+            with world(GenericWorld(seed=11)):
+                st = algo.reset(env, pol, key=jr.key(1), callback=cb)
+                for a in attr_targets:
+                    st = eqx.tree_at(lambda s_, a=a: getattr(s_, a), st, jax.tree_util.tree_map(lambda x: x * scale + (scale - 1.0) if eqx.is_inexact_array(x) else x, getattr(st, a)))
+                out = jax.block_until_ready(algo.iteration(st, key=jr.key(2), callback=cb))
+            outs.append([getattr(out, a) for a in attr_online])
+        jax.clear_caches()
+        same = all(leaves_equal(x, y) for x, y in zip(*outs))
+        return same, {"note": "two real iterations from states that differ only in the target networks produce identical online updates: the TD target does not use the target networks",
+                      "target_attributes": list(attr_targets)}
+    # DQN
+    envd = TimeLimit(UFEnv(Discrete(2)), 3)
+    algo = DQN(buffer_size=4, learning_starts=1, num_envs=1, num_steps=1, batch_size=2, target_update_interval=5)
+    pol = MLPQPolicy(envd, width_size=2, depth=1, key=jr.key(0))
+    tr, it, S, out = iteration_trace("DQN", algo, envd, pol, cb)
+    ck.encoded(tr)
+    tgt = {n for n in S if n.startswith("st_target_policy_") and "space" not in n}
+    tgt_syms = set()
+    for n in tgt:
+        tgt_syms |= symbols_in(list(S[n].reshape(-1)))
+    online_out = [x for n in tr.out_names if n.startswith("policy_") and "space" not in n for x in out[n].reshape(-1)]
+    used = symbols_in(online_out) & tgt_syms
+    ok = bool(used)
+    rep = None
+    if not ok:
+        rep = real_dependence(algo, envd, pol, ["target_policy"], ["policy"])
+    ck.fact("dqn.iteration_trains_against_target_network", ok or not rep[0], f"{len(used)} of {len(tgt_syms)} target-network parameter symbols occur in the updated online parameters" + ("" if ok else f"; replay: {rep[1]}"))
+    # SAC
+    envb = TimeLimit(UFEnv(Box(-jnp.ones(1), jnp.ones(1))), 3)
+    algo = SAC(buffer_size=4, learning_starts=1, num_envs=1, num_steps=1, batch_size=2, q_width_size=2, q_depth=1)
+    pol = MLPSACPolicy(envb, feature_size=2, width_size=2, depth=1, key=jr.key(0))
+    tr, it, S, out = iteration_trace("SAC", algo, envb, pol, cb)
+    for q in ("qf1", "qf2"):
+        tsy = set()
+        for n in S:
+            if n.startswith(f"st_{q}_target_"):
+                tsy |= symbols_in(list(S[n].reshape(-1)))
+        crit = [x for n in tr.out_names if (n.startswith("qf1_mlp") or n.startswith("qf2_mlp")) for x in out[n].reshape(-1)]
+        used = symbols_in(crit) & tsy
+        ok = bool(used)
+        rep = None
+        if not ok:
+            rep = real_dependence(algo, envb, pol, [q + "_target"], ["qf1", "qf2"])
+        ck.fact(f"sac.iteration_trains_against_target_critic.{q}", ok or not rep[0], f"{len(used)} of {len(tsy)} parameter symbols of {q}_target occur in the updated critics" + ("" if ok else f"; replay: {rep[1]}"))
+
+
 def main():
     ck = Check("C07", "TD targets bootstrap through truncation, never through termination")
     ck.mode = "REAL"
@@ -729,6 +809,8 @@ def main():
     if th:
         with ck.section("sac.value@B=2,obs_dim=2,action_dim=2"):
             sec_sac_value(ck, 2, c=cs.get("c"), m=2, adim=2)
+    with ck.section("iteration_wiring"):
+        sec_iteration_wiring(ck)
     for (B, S_) in [(2, 2)]:   # larger tabular SAC instances do not finish (w1 cells: nlsat timeout) - bound stated
         with ck.section(f"sac.tabular@B={B},S={S_}"):
             sec_sac_tab(ck, B, S_, controls=(B == 2 and S_ == 2))
